@@ -433,6 +433,33 @@ class Check(Property):
                         v.append(f"C16 {lbl} = {got}; membership on consistent magnitudes gives {want}{known}")
             except Exception as exc:  # noqa: BLE001
                 v.append(f"C16 probe matmul/searchsorted/isin raised {type(exc).__name__}: {exc}")
+            # products of arrays (np.dot, np.cross, np.inner, np.outer, Quantity.dot, @): unchanged when an operand is re-expressed,
+            # in either operand position - also for an offset unit in autoconvert mode (where the product goes through base units)
+            try:
+                for auto in (False, True):
+                    r = regs.fresh("float", autoconvert_offset_to_baseunit=auto)
+                    z = r.Quantity(np.array([1.0, 2.0, 3.0]), "meter")
+                    for t, t_alt in ((r.Quantity(np.array([0.0, 5.0, 10.0]), "degC"), r.Quantity(np.array([273.15, 278.15, 283.15]), "kelvin")),
+                                     (r.Quantity(np.array([100.0, 200.0, 300.0]), "centimeter"), r.Quantity(np.array([1.0, 2.0, 3.0]), "meter"))):
+                        for name, fn in (("np.dot", np.dot), ("np.cross", np.cross), ("np.inner", np.inner), ("np.outer", np.outer),
+                                         ("Quantity.dot", lambda a, b: a.dot(b)), ("@", lambda a, b: a @ b)):
+                            for pos, (a1, b1), (a2, b2) in (("second", (z, t), (z, t_alt)), ("first", (t, z), (t_alt, z))):
+                                def ev(a, b):
+                                    try:
+                                        q = fn(a, b).to_root_units()
+                                        return ("ok", np.round(np.asarray(q.magnitude, dtype=float), 6).tolist(), str(q.units))
+                                    except Exception as exc:  # noqa: BLE001
+                                        return ("err", type(exc).__name__)
+                                g1, g2 = ev(a1, b1), ev(a2, b2)
+                                offs = "degree_Celsius" in str(t.units)
+                                if offs and not auto:
+                                    if g1[0] == "ok":
+                                        v.append(f"C16 {name} with a degC array as {pos} operand (no autoconvert) returned {g1} (offset units are refused in products)")
+                                elif g1 != g2:
+                                    known = " [known finding F56] (np.matmul is a ufunc: it multiplies the raw magnitudes)" if (offs and name == "@") else ""
+                                    v.append(f"C16 {name}, {pos} operand {t.units} (autoconvert={auto}): {g1}; with the operand re-expressed in {t_alt.units}: {g2}{known}")
+            except Exception as exc:  # noqa: BLE001
+                v.append(f"C16 probe array products raised {type(exc).__name__}: {exc}")
         return v
 
     def oracle(self, c):
